@@ -263,3 +263,19 @@ def check_C03(c):
     c.assumptions += ["every reply of the scripted peer is a function of the request it answers; the expected value is computed by the harness from the call's argument",
                       "channel identity = address of the result channel (hook cc.put / cc.deliver.*)"]
     return c.finish()
+
+
+def check_C04(c):
+    c.model("ClientConn", "ClientConn.quick.cfg", note="exhaustive: 3 callers, reader failure / writer failure at every step of every interleaving; NotifiedOnce, no blocked state (deadlock check), <>AllDone")
+    c.model("ClientConn", "ClientConn.abl_HijackOnBroadcast.cfg", must="fail", expect="Deadlock", note="broadcastErr does not hijack the channel: a later send error blocks on the full channel")
+    c.model("ClientConn", "ClientConn.abl_SendErrDelivered.cfg", must="fail", expect="Deadlock", note="send error not delivered: the caller waits forever")
+    c.model("ClientConn", "ClientConn.abl_DeleteOnGet.cfg", must="fail", expect="Inv_C04_NotifiedOnce", note="getChannel does not delete: notified twice")
+    rc, out, path = c.run("TestVerif_ConnLoss", timeout=3000)
+    count_traces(c, path, ["fault", "at", "err", "variant"])
+    c.cov["rule"] = ("a case is one (client option variant, fault) where the fault is a cut of the server->client stream at a byte offset (EOF or error) or the failure of the "
+                     "j-th client->server write; 5 goroutines run single calls and multi-chunk transfers, two of them start calls around/after the failure")
+    found = c.validate("TraceClient", "TraceClient.C04.cfg", path)
+    report_trace_violations(c, found, "TraceClient")
+    c.assumptions += ["bounded waiting (20 s per session) stands for 'hangs'; the parked-goroutine stack is stored in the replay file",
+                      "the peer behaves like a server process: when its input ends it closes its output"]
+    return c.finish()
